@@ -135,11 +135,23 @@ def symbolToTopology (s : Nat) : Nat :=
   let opp ← wr "SetOppositeCorner" opp a b
   wr "SetOppositeCorner" opp b a
 
-/-- `MeshEdgebreakerDecoderImpl::DecodeConnectivity(int num_symbols)` together with the calls it
-    makes into the traversal decoder (`DecodeSymbol`, `NewActiveCornerReached`, `MergeVertices`,
-    `DecodeStartFaceConfiguration`). Returns the tables and the traversal decoder state needed
-    afterwards (the attribute seam decoders are not touched here). -/
-def connLoop (ci : ConnIn) (tr : Trav) : R ConnOut := do
+/-- state of the tables after the symbol loop of `DecodeConnectivity` -/
+structure ConnMain where
+  c2v : Array Nat
+  opp : Array Nat
+  vc : Array Nat
+  hole : Array Bool
+  /-- `active_corner_stack` -/
+  stack : Array Nat
+  /-- `invalid_vertices` -/
+  invalid : Array Nat
+  numFaces : Nat
+  tags : Nat
+
+/-- the symbol loop of `MeshEdgebreakerDecoderImpl::DecodeConnectivity(int num_symbols)` together with the calls it
+    makes into the traversal decoder (`DecodeSymbol`, `NewActiveCornerReached`, `MergeVertices`), up to and
+    including the check `num_vertices() > max_num_vertices → -1` -/
+def connMain (ci : ConnIn) (tr : Trav) : R ConnMain := do
   let nc := 3 * ci.numFaces
   let mut c2v := Array.replicate nc inv
   let mut opp := Array.replicate nc inv
@@ -185,9 +197,9 @@ def connLoop (ci : ConnIn) (tr : Trav) : R ConnOut := do
       if activeCtx != inv then
         let cnt := (← rdI "context_counters_" ctxCnt activeCtx) - 1
         ctxCnt ← wrI "context_counters_" ctxCnt activeCtx cnt
-        if cnt < 0 then throw .fail            -- TOPOLOGY_INVALID: unknown symbol
+        if cnt < 0 then raise .fail            -- TOPOLOGY_INVALID: unknown symbol
         let sid ← rd "context_symbols_" (tr.ctxSyms.getD activeCtx #[]) cnt.toNat
-        if sid > 4 then throw .fail
+        if sid > 4 then raise .fail
         symbol := symbolToTopology sid
         tags := tags ||| tg_valence_ctx_used
       else if tr.legacy then
@@ -205,17 +217,17 @@ def connLoop (ci : ConnIn) (tr : Trav) : R ConnOut := do
     let corner := 3 * face
     if symbol == topoC then
       tags := tags ||| tg_sym_C
-      if stack.isEmpty then throw .fail
+      if stack.isEmpty then raise .fail
       let cornerA := stack.back!
       let vertexX ← vertex c2v (nextC cornerA)
       let cornerB := nextC (← leftMost vc vertexX)
-      if cornerA == cornerB then throw .fail
-      if (← opposite opp cornerA) != inv || (← opposite opp cornerB) != inv then throw .fail
+      if cornerA == cornerB then raise .fail
+      if (← opposite opp cornerA) != inv || (← opposite opp cornerB) != inv then raise .fail
       opp ← setOpp opp cornerA (corner + 1)
       opp ← setOpp opp cornerB (corner + 2)
       let vertAPrev ← vertex c2v (prevC cornerA)
       let vertBNext ← vertex c2v (nextC cornerB)
-      if vertexX == vertAPrev || vertexX == vertBNext then throw .fail
+      if vertexX == vertAPrev || vertexX == vertBNext then raise .fail
       c2v ← wr "MapCornerToVertex" c2v corner vertexX
       c2v ← wr "MapCornerToVertex" c2v (corner + 1) vertBNext
       c2v ← wr "MapCornerToVertex" c2v (corner + 2) vertAPrev
@@ -224,15 +236,15 @@ def connLoop (ci : ConnIn) (tr : Trav) : R ConnOut := do
       stack := stack.set! (stack.size - 1) corner
     else if symbol == topoR || symbol == topoL then
       tags := tags ||| (if symbol == topoR then tg_sym_R else tg_sym_L)
-      if stack.isEmpty then throw .fail
+      if stack.isEmpty then raise .fail
       let cornerA := stack.back!
-      if (← opposite opp cornerA) != inv then throw .fail
+      if (← opposite opp cornerA) != inv then raise .fail
       let (oppCorner, cornerL, cornerR) :=
         if symbol == topoR then (corner + 2, corner + 1, corner) else (corner + 1, corner, corner + 2)
       opp ← setOpp opp oppCorner cornerA
       let newVert := vc.size
       vc := vc.push inv
-      if vc.size > ci.maxNumVertices then throw .fail
+      if vc.size > ci.maxNumVertices then raise .fail
       c2v ← wr "MapCornerToVertex" c2v oppCorner newVert
       vc ← setLeftMost vc newVert oppCorner
       let vertexR ← vertex c2v (prevC cornerA)
@@ -243,15 +255,15 @@ def connLoop (ci : ConnIn) (tr : Trav) : R ConnOut := do
       checkSplit := true
     else if symbol == topoS then
       tags := tags ||| tg_sym_S
-      if stack.isEmpty then throw .fail
+      if stack.isEmpty then raise .fail
       let cornerB := stack.back!
       stack := stack.pop
       let it := splitActive.getD symbolId inv
       if it != inv then stack := stack.push it
-      if stack.isEmpty then throw .fail
+      if stack.isEmpty then raise .fail
       let cornerA := stack.back!
-      if cornerA == cornerB then throw .fail
-      if (← opposite opp cornerA) != inv || (← opposite opp cornerB) != inv then throw .fail
+      if cornerA == cornerB then raise .fail
+      if (← opposite opp cornerA) != inv || (← opposite opp cornerB) != inv then raise .fail
       opp ← setOpp opp cornerA (corner + 2)
       opp ← setOpp opp cornerB (corner + 1)
       let vertexP ← vertex c2v (prevC cornerA)
@@ -265,7 +277,7 @@ def connLoop (ci : ConnIn) (tr : Trav) : R ConnOut := do
       -- traversal_decoder_.MergeVertices(vertex_p, vertex_n)
       if tr.tracksValences then
         let s := (← rd "vertex_valences_" valences vertexP) + (← rd "vertex_valences_" valences vertexN)
-        if s ≥ 2 ^ 31 then throw (.ub "vertex_valences_ overflow")
+        if s ≥ 2 ^ 31 then raise (.ub "vertex_valences_ overflow")
         valences ← wr "vertex_valences_" valences vertexP s
       vc ← setLeftMost vc vertexP (← leftMost vc vertexN)
       let firstCorner := cornerN
@@ -276,8 +288,8 @@ def connLoop (ci : ConnIn) (tr : Trav) : R ConnOut := do
           break
         c2v ← wr "MapCornerToVertex" c2v cornerN vertexP
         cornerN ← swingLeft opp cornerN
-        if cornerN == firstCorner then throw .fail
-      if !fin then throw (.fuel "S: swing left")
+        if cornerN == firstCorner then raise .fail
+      if !fin then raise (.fuel "S: swing left")
       vc ← wr "MakeVertexIsolated" vc vertexN inv
       tags := tags ||| tg_isolated_S
       if ci.removeInvalid then invalid := invalid.push vertexN
@@ -289,14 +301,14 @@ def connLoop (ci : ConnIn) (tr : Trav) : R ConnOut := do
       c2v ← wr "MapCornerToVertex" c2v corner first
       c2v ← wr "MapCornerToVertex" c2v (corner + 1) (first + 1)
       c2v ← wr "MapCornerToVertex" c2v (corner + 2) (first + 2)
-      if vc.size > ci.maxNumVertices then throw .fail
+      if vc.size > ci.maxNumVertices then raise .fail
       vc ← setLeftMost vc first corner
       vc ← setLeftMost vc (first + 1) (corner + 1)
       vc ← setLeftMost vc (first + 2) (corner + 2)
       stack := stack.push corner
       checkSplit := true
     else
-      throw .fail
+      raise .fail
     -- traversal_decoder_.NewActiveCornerReached(active_corner_stack.back())
     if tr.tracksValences then
       let c := stack.back!
@@ -323,7 +335,7 @@ def connLoop (ci : ConnIn) (tr : Trav) : R ConnOut := do
         valences ← add valences vN 2
         valences ← add valences vP 2
       let av ← rd "vertex_valences_" valences vN
-      if av ≥ 2 ^ 31 then throw (.ub "vertex_valences_ overflow")
+      if av ≥ 2 ^ 31 then raise (.ub "vertex_valences_ overflow")
       if tr.kind == 1 then
         if lastSymbol == topoC || lastSymbol == topoR then
           predicted := if av < 6 then topoR else topoC
@@ -339,11 +351,11 @@ def connLoop (ci : ConnIn) (tr : Trav) : R ConnOut := do
         | [] => break
         | s :: rest =>
           -- IsTopologySplit
-          if s.source > encoderSymbolId then throw .fail      -- out id = -1: wrong split symbol id
+          if s.source > encoderSymbolId then raise .fail      -- out id = -1: wrong split symbol id
           if s.source != encoderSymbolId then break
           splits := rest
           let encSplit := toSigned 32 s.split
-          if encSplit < 0 then throw .fail
+          if encSplit < 0 then raise .fail
           count := count + 1
           tags := tags ||| tg_split_event
           if count == 2 then tags := tags ||| tg_split_two_on_one_symbol
@@ -354,7 +366,26 @@ def connLoop (ci : ConnIn) (tr : Trav) : R ConnOut := do
           let decSplit : Int := (ci.numSymbols : Int) - encSplit - 1
           if 0 ≤ decSplit && decSplit < ci.numSymbols then
             splitActive := splitActive.set! decSplit.toNat newActive
-  if vc.size > ci.maxNumVertices then throw .fail
+  if vc.size > ci.maxNumVertices then raise .fail
+  pure { c2v, opp, vc, hole, stack, invalid, numFaces, tags }
+
+/-- result of the start face loop -/
+structure ConnStart where
+  c2v : Array Nat
+  opp : Array Nat
+  hole : Array Bool
+  tags : Nat
+  startBits : List Bool
+
+/-- `DecodeStartFaceConfiguration` for every component left on the stack, then `num_faces != corner_table_->num_faces()` -/
+def connStart (ci : ConnIn) (tr : Trav) (m : ConnMain) : R ConnStart := do
+  let vc := m.vc
+  let mut c2v := m.c2v
+  let mut opp := m.opp
+  let mut hole := m.hole
+  let mut stack := m.stack
+  let mut numFaces := m.numFaces
+  let mut tags := m.tags
   -- start faces
   let mut startFace := tr.startFace
   let mut startFaceBits := tr.startFaceBits
@@ -376,14 +407,14 @@ def connLoop (ci : ConnIn) (tr : Trav) : R ConnOut := do
     startBits := interior :: startBits
     if interior then
       tags := tags ||| tg_start_interior
-      if numFaces ≥ ci.numFaces then throw .fail
+      if numFaces ≥ ci.numFaces then raise .fail
       let vertN ← vertex c2v (nextC corner)
       let cornerB := nextC (← leftMost vc vertN)
       let vertX ← vertex c2v (nextC cornerB)
       let cornerC := nextC (← leftMost vc vertX)
-      if corner == cornerB || corner == cornerC || cornerB == cornerC then throw .fail
+      if corner == cornerB || corner == cornerC || cornerB == cornerC then raise .fail
       if (← opposite opp corner) != inv || (← opposite opp cornerB) != inv
-          || (← opposite opp cornerC) != inv then throw .fail
+          || (← opposite opp cornerC) != inv then raise .fail
       let vertP ← vertex c2v (nextC cornerC)
       let newCorner := 3 * numFaces
       numFaces := numFaces + 1
@@ -398,7 +429,19 @@ def connLoop (ci : ConnIn) (tr : Trav) : R ConnOut := do
       hole ← wrB "is_vert_hole_" hole vertN false
     else
       tags := tags ||| tg_start_boundary
-  if numFaces != ci.numFaces then throw .fail
+  if numFaces != ci.numFaces then raise .fail
+  pure { c2v, opp, hole, tags, startBits }
+
+/-- removal of the vertices made isolated by TOPOLOGY_S (only when there is no attribute data): the last valid
+    vertex takes the place of each of them -/
+def connCompact (ci : ConnIn) (m : ConnMain) (s : ConnStart) : R ConnOut := do
+  let nc := 3 * ci.numFaces
+  let opp := s.opp
+  let invalid := m.invalid
+  let mut c2v := s.c2v
+  let mut vc := m.vc
+  let mut hole := s.hole
+  let mut tags := s.tags
   -- remove the vertices made isolated by TOPOLOGY_S
   let mut numVertices : Int := vc.size
   let mut noSwapSeen := false
@@ -415,7 +458,7 @@ def connLoop (ci : ConnIn) (tr : Trav) : R ConnOut := do
       if skipped ≥ 2 then tags := tags ||| tg_compact_skip_trailing_2
       numVertices := numVertices - 1
       srcVert := toUnsigned 32 (numVertices - 1)
-    if !fin then throw (.fuel "compaction: last valid vertex")
+    if !fin then raise (.fuel "compaction: last valid vertex")
     if srcVert < invalidVert then
       tags := tags ||| tg_compact_no_swap
       noSwapSeen := true
@@ -431,7 +474,7 @@ def connLoop (ci : ConnIn) (tr : Trav) : R ConnOut := do
       if c == inv then
         fin2 := true
         break
-      if (← vertex c2v c) != srcVert then throw .fail
+      if (← vertex c2v c) != srcVert then raise .fail
       c2v ← wr "MapCornerToVertex" c2v c invalidVert
       -- ++vcit
       if left then
@@ -443,14 +486,26 @@ def connLoop (ci : ConnIn) (tr : Trav) : R ConnOut := do
           c := inv
       else
         c ← swingRight opp c
-    if !fin2 then throw (.fuel "compaction: corners of a vertex")
+    if !fin2 then raise (.fuel "compaction: corners of a vertex")
     vc ← setLeftMost vc invalidVert (← leftMost vc srcVert)
     vc ← wr "MakeVertexIsolated" vc srcVert inv
     hole ← wrB "is_vert_hole_" hole invalidVert (← rdB "is_vert_hole_" hole srcVert)
     hole ← wrB "is_vert_hole_" hole srcVert false
     numVertices := numVertices - 1
-  if numVertices < 0 then throw (.ub "negative vertex count")
-  pure { c2v, opp, vc, hole, numConnVerts := numVertices.toNat, tags, startFaces := startBits.reverse }
+  if numVertices < 0 then raise (.ub "negative vertex count")
+  pure { c2v, opp, vc, hole, numConnVerts := numVertices.toNat, tags, startFaces := s.startBits.reverse }
+
+-- (`simp [connLoop]` on a concrete input unfolds the three parts as well)
+attribute [simp] connMain connStart connCompact
+
+/-- `MeshEdgebreakerDecoderImpl::DecodeConnectivity(int num_symbols)` together with the calls it
+    makes into the traversal decoder (`DecodeSymbol`, `NewActiveCornerReached`, `MergeVertices`,
+    `DecodeStartFaceConfiguration`). Returns the tables and the traversal decoder state needed
+    afterwards (the attribute seam decoders are not touched here). -/
+def connLoop (ci : ConnIn) (tr : Trav) : R ConnOut := do
+  let m ← connMain ci tr
+  let s ← connStart ci tr m
+  connCompact ci m s
 
 /-- `MeshAttributeCornerTable` built by `InitEmpty`, `AddSeamEdge`, `RecomputeVertices`, plus
     the decoder's `AttributeData` bookkeeping -/
@@ -486,7 +541,7 @@ def decodeSeams (legacy21 : Bool) (opp : Array Nat) (numFaces numAtt : Nat) (dec
       if !legacy21 && oc / 3 < f then continue
       for i in [0:numAtt] do
         match decs[i]? with
-        | none => throw (.ub "attribute_connectivity_decoders_")
+        | none => raise (.ub "attribute_connectivity_decoders_")
         | some d =>
           let (b, d') := d.nextBit
           decs := decs.set! i d'
@@ -581,14 +636,14 @@ def assignPoints (co : ConnOut) (numFaces : Nat) (atts : Array AttConn) : R (Arr
           if actC == c0 then
             fin := true
             break
-          if actC == inv then throw .fail
+          if actC == inv then raise .fail
           if (← rd "MeshAttributeCornerTable::Vertex" a.c2v actC) != vertId then
             first := actC
             seamFound := true
             fin := true
             break
           actC ← swingRight co.opp actC
-        if !fin then throw (.fuel "AssignPointsToCorners: seam search")
+        if !fin then raise (.fuel "AssignPointsToCorners: seam search")
         if seamFound then
           tags := tags ||| tg_points_dedup_seam_start
           break
@@ -615,7 +670,7 @@ def assignPoints (co : ConnOut) (numFaces : Nat) (atts : Array AttConn) : R (Arr
         cornerToPoint ← wr "corner_to_point_map" cornerToPoint c (← rd "corner_to_point_map" cornerToPoint prev)
       prev := c
       c ← swingRight co.opp c
-    if !fin then throw (.fuel "AssignPointsToCorners: corners of a vertex")
+    if !fin then raise (.fuel "AssignPointsToCorners: corners of a vertex")
   pure (cornerToPoint, pointToCorner.size, tags)
 
 /-- everything the attribute decoders need from `DecodeConnectivity` -/
